@@ -8,6 +8,7 @@ import ZV.Model.ZCore
 import ZV.Model.ZCoreSpec
 import ZV.Props.C02Statements
 import ZV.Proofs.RefMachine
+import ZV.Proofs.MachineMatch
 
 namespace ZV.Props.C02
 open ZV.Machine ZV.ZCore
@@ -42,5 +43,10 @@ theorem machine_to_ref : Statement.machine_to_ref := ZV.ZCore.machine_to_ref_pf
 
 /-- The reference semantics of an accepted program never goes wrong. -/
 theorem ref_never_wrong : Statement.ref_never_wrong := ZV.ZCore.ref_never_wrong_pf
+
+/-- Of several arms that match, the first is taken. -/
+theorem match_takes_first : Statement.match_takes_first :=
+  fun st scrut sv env' before rest p tail hv hb hp =>
+    ZV.Machine.match_takes_first st scrut sv env' before rest p tail hv hb hp
 
 end ZV.Props.C02
